@@ -66,7 +66,7 @@ def _seq_check(k, reader, writer, eligible, t_from=None, offer_time=None):
                     f = pending
                     pending = None
                     i = proto.frame_ident(f)
-                    if i is not None and eligible(f) and (t_from is None or offer_time.get(i, 0) >= t_from):
+                    if i is not None and (i >> 20) != 0xDEAD and eligible(f) and (t_from is None or offer_time.get(i, 0) >= t_from):
                         reads.append((i, f))
                 continue
             if pending is not None and ev[1] == "wait":
@@ -76,12 +76,12 @@ def _seq_check(k, reader, writer, eligible, t_from=None, offer_time=None):
         if ev[1] == "tun_read" and ev[2] == reader and reader == "srv":
             f = ev[3]["data"]
             i = proto.frame_ident(f)
-            if i is not None and eligible(f) and (t_from is None or offer_time.get(i, 0) >= t_from):
+            if i is not None and (i >> 20) != 0xDEAD and eligible(f) and (t_from is None or offer_time.get(i, 0) >= t_from):
                 reads.append((i, f))
         elif ev[1] == "tun_write" and ev[2] == writer:
             f = ev[3]["data"]
             i = proto.frame_ident(f)
-            if i is not None and eligible(f) and (t_from is None or offer_time.get(i, -1) >= t_from):
+            if i is not None and (i >> 20) != 0xDEAD and eligible(f) and (t_from is None or offer_time.get(i, -1) >= t_from):
                 writes.append((i, f))
     ri = [i for i, _ in reads]
     wi = [i for i, _ in writes]
@@ -192,6 +192,11 @@ def scn(params):
         dead = [(p.name, t.sim.health(p)) for p in (t.srv, t.clients[0]) if not p.alive()]
         if dead:
             h = dead[0][1]
+            if h == "stalled" and getattr(k.procs[dead[0][0]], "spinning", False):
+                out["violations"].append(("C02:wedge:busy-loop:%s" % ("server" if dead[0][0] == "srv" else "client"),
+                                          "%s spins: its select() keeps reporting a readable descriptor that it never reads, and it does nothing else any more"
+                                          % dead[0][0], dict(wit, time_us=k.now)))
+                return out
             if h.startswith("sanitizer") or h == "stalled":
                 # memory-safety / termination failures belong to C05/C06; here the run is inconclusive
                 out["inconclusive"] = "process-" + h.split(":")[0]
